@@ -112,7 +112,12 @@ class NdNode(Node):
             if self.dt is not None and self.dt not in ABSTRACT:
                 # the declared element type (an int outside a narrower integer dtype makes numpy raise: a rejection)
                 return Acc(numpy.array(res, dtype=DTYPES[self.dt][0]))
-            return Acc(numpy.array(res))
+            arr = numpy.array(res)
+            if self.dt in ('floating', 'integer') and arr.size and not numpy.issubdtype(arr.dtype, DTYPES[self.dt][0]):
+                # numpy chose an element type outside the declared family (ints for a floating array; floats for ints beyond
+                # 64 bits): the family's default type, or a rejection where the values do not fit it
+                arr = numpy.array(res, dtype={'floating': numpy.float64, 'integer': numpy.int64}[self.dt])
+            return Acc(arr)
         except Exception as e:
             return Rej(f'numpy.array raised {type(e).__name__}')
 
